@@ -218,7 +218,7 @@ Lemma rev_step_cases d p k st c : r_stop st = false ->
        fold_left (rev_fp_step p k c (minw_eff p c) (Some e)) (rfp_of d (c_from c))
                  (r_taur st, r_steps st, r_acc st) /\
        ((r_reached st = false /\ (exists ar, row_of (c_from c) (k_accfp k) = Some ar) /\
-         r_reached st' = true /\ r_tent st' = c_dep c) \/
+         r_reached st' = true /\ r_tent st' = c_dep c - minw_eff p c) \/
         (r_reached st' = r_reached st /\ r_tent st' = r_tent st))))).
 Proof.
   intros Hstop st'. subst st'. unfold rev_step. fold (ov1_of p st c). rewrite Hstop.
@@ -643,10 +643,10 @@ Section Completeness.
     (* r_acc of the boarding stop holds a boarding at least as late *)
     cp_acc : forall n t b e rest, tail n t ((b, e) :: rest) -> In b pre -> dep_ok k b (minw_eff p b) ->
                 acc_ge d p (r_acc st (c_from b)) (c_dep b - minw_eff p b);
-    (* the tentative departure that arms the access-based break comes from a processed boarding at an
-       access stop *)
+    (* the tentative ready time (boarding departure - minimum waiting) that arms the access-based break
+       comes from a processed boarding at an access stop *)
     cp_tent : r_reached st = true ->
-                exists c0 ar0, In c0 (all_conns d) /\ r_tent st = c_dep c0 /\
+                exists c0 ar0, In c0 (all_conns d) /\ r_tent st = c_dep c0 - minw_eff p c0 /\
                   row_of (c_from c0) (k_accfp k) = Some ar0 /\ 0 < r_count st /\
                   (dep_ok k c0 (minw_eff p c0) ->
                    acc_ge d p (r_acc st (c_from c0)) (c_dep c0 - minw_eff p c0)) }.
@@ -999,10 +999,10 @@ Section Completeness.
     destruct P2 as (j & b' & J1 & J2 & J3 & J4). exists j, b'. repeat split; try assumption. lia.
   Qed.
 
-  (* the break armed by the first boarding found at an access stop uses the longest access walk, and
-     subtracts it from a boarding time: sound only when every connection waits the same minimum *)
+  (* the break armed by the first boarding found at an access stop subtracts the longest access walk from that
+     boarding's ready time (departure - its own minimum waiting): whatever it cuts arrives before the
+     departure that boarding stands for, so no uniformity of the minimum waiting times is needed *)
   Hypothesis HmaxAcc : forall ra, In ra acc -> 0 <= k_maxAcc k -> fp_time ra <= k_maxAcc k.
-  Hypothesis Huni : 0 <= k_maxAcc k -> uniform_wait_b d = true.
 
   Theorem rev_complete st ra re rides t0 m t' :
     rev_scan d p k false = Ok st ->
@@ -1045,8 +1045,7 @@ Section Completeness.
     - subst rest. destruct Hbrk as [(Bre & Bacc & Bt)|B].
       + (* the access-based break *)
         destruct (cp_tent _ _ HC Bre) as (c0 & ar0 & T1 & T2 & T3 & T4 & T5).
-        pose proof (Huni Bacc) as Hu.
-        pose proof (uniform_minw d p c0 Hu T1) as M0. pose proof (uniform_minw d p b Hu Rb) as Mb.
+        pose proof (minw_eff_nonneg p c0 q_minw_nonneg) as M0.
         destruct (row_of_some _ _ _ T3) as [N0 Hin0]. rewrite Eacc in Hin0.
         pose proof (HmaxAcc ar0 Hin0 Bacc) as Hw0.
         pose proof (rows_ok_nonneg d acc ar0 Hracc Hin0) as Har0.
@@ -1080,14 +1079,14 @@ Proof. intros H. destruct H; do 3 eexists; (split; [reflexivity|assumption]). Qe
 (* arrival query: every admissible journey leaves no later than the departure best_access selects *)
 Corollary rev_complete_arrival d s p acc egr st dep0 rides :
   wf_data_b d = true -> wf_params_b p = true -> wf_tables_b d p acc egr = true ->
-  pos_hops_b d = true -> uniform_wait_b d = true -> q_fwd p = false ->
+  pos_hops_b d = true -> q_fwd p = false ->
   let k0 := mk_calc d p (conn_set d s) acc egr true true in
   let k := with_rev k0 (k_arr k0) (-1) (k_taur k0) (set_usable (k_ov k0)) in
   rev_scan d p k false = Ok st ->
   admissible_rev d s p acc egr dep0 rides ->
   r_count st <> 0 /\ exists t n, best_access p k st = Some (t, n) /\ dep0 <= t.
 Proof.
-  intros Hwf Hp Htab Hpos Huni Hf k0 k Hscan (arr & (ra & re & m & t' & Hra & Hre & Hreach & Hm & Harr) & Hle & H0 & Hspan).
+  intros Hwf Hp Htab Hpos Hf k0 k Hscan (arr & (ra & re & m & t' & Hra & Hre & Hreach & Hm & Harr) & Hle & H0 & Hspan).
   pose proof (calc_single_rev_pre_arrival d s p acc egr Htab) as Hpre. cbv zeta in Hpre. fold k0 in Hpre. fold k in Hpre.
   destruct (wf_tables_parts d p acc egr Htab) as (Hracc & Hregr & _ & _).
   assert (Ek : k_arr k = q_time p) by (unfold k, k0, with_rev, mk_calc; cbn [k_arr]; rewrite Hf; reflexivity).
@@ -1101,7 +1100,6 @@ Proof.
   - rewrite Ek. apply wf_params_time. exact Hp.
   - apply min_time_nonneg. intros r Hr. apply (rows_ok_nonneg d egr r Hregr Hr).
   - intros r Hr _. apply (max_time_ge acc r Hr).
-  - intros _. exact Huni.
   - rewrite Ek. lia.
   - intros b e _. reflexivity.
   - lia.
@@ -1145,7 +1143,7 @@ Qed.
    restricted to the trips the forward scan boarded *)
 Corollary rev_complete_departure d s p acc egr fs best n0 st ra re rides t0 m t' :
   wf_data_b d = true -> wf_params_b p = true -> wf_tables_b d p acc egr = true ->
-  pos_hops_b d = true -> uniform_wait_b d = true -> q_fwd p = true -> q_maxfw p <= 0 ->
+  pos_hops_b d = true -> q_fwd p = true -> q_maxfw p <= 0 ->
   let k0 := mk_calc d p (conn_set d s) acc egr true true in
   fwd_scan d p k0 false = Ok fs -> best_egress p k0 fs = Some (best, n0) ->
   let k := with_rev k0 best (k_dep k0)
@@ -1157,7 +1155,7 @@ Corollary rev_complete_departure d s p acc egr fs best n0 st ra re rides t0 m t'
   q_time p <= departure_of p ra rides -> best - departure_of p ra rides <= q_maxtt p ->
   r_count st <> 0 /\ exists t n, best_access p k st = Some (t, n) /\ departure_of p ra rides <= t.
 Proof.
-  intros Hwf Hp Htab Hpos Huni Hf Hfw k0 Hfscan Hbest k Hscan Hra Hre Hreach Hm Harr Hus Hdep Hspan.
+  intros Hwf Hp Htab Hpos Hf Hfw k0 Hfscan Hbest k Hscan Hra Hre Hreach Hm Harr Hus Hdep Hspan.
   pose proof (calc_single_rev_pre_departure d s p acc egr fs best Htab Hf Hfscan) as Hpre.
   cbv zeta in Hpre. fold k0 in Hpre. fold k in Hpre.
   destruct (wf_tables_parts d p acc egr Htab) as (Hracc & Hregr & _ & _).
@@ -1169,7 +1167,6 @@ Proof.
   - apply (best_egress_nonneg p k0 fs best n0 Hbest).
   - apply min_time_nonneg. intros r Hr. apply (rows_ok_nonneg d egr r Hregr Hr).
   - intros r Hr _. apply (max_time_ge acc r Hr).
-  - intros _. exact Huni.
   - lia.
   - right. rewrite Ek. exact Hdep.
 Qed.
@@ -1584,7 +1581,7 @@ Print Assumptions allnodes_latest.
 (* arrival query: best_access answers exactly when an admissible journey exists, with the latest departure *)
 Theorem rev_arrival_optimal d s p acc egr st :
   wf_data_b d = true -> wf_params_b p = true -> wf_tables_b d p acc egr = true ->
-  pos_hops_b d = true -> uniform_wait_b d = true -> q_fwd p = false ->
+  pos_hops_b d = true -> q_fwd p = false ->
   let k0 := mk_calc d p (conn_set d s) acc egr true true in
   let k := with_rev k0 (k_arr k0) (-1) (k_taur k0) (set_usable (k_ov k0)) in
   rev_scan d p k false = Ok st ->
@@ -1593,12 +1590,12 @@ Theorem rev_arrival_optimal d s p acc egr st :
      (exists rides, admissible_rev d s p acc egr t rides) /\
      (forall dep0 rides, admissible_rev d s p acc egr dep0 rides -> dep0 <= t)).
 Proof.
-  intros Hwf Hp Htab Hpos Huni Hf k0 k Hscan.
+  intros Hwf Hp Htab Hpos Hf k0 k Hscan.
   pose proof (calc_single_rev_pre_arrival d s p acc egr Htab) as Hpre. cbv zeta in Hpre. fold k0 in Hpre. fold k in Hpre.
   assert (Ek : k_arr k = q_time p) by (unfold k, k0, with_rev, mk_calc; cbn [k_arr]; rewrite Hf; reflexivity).
   split.
   - intros Hnone dep0 rides Hadm.
-    destruct (rev_complete_arrival d s p acc egr st dep0 rides Hwf Hp Htab Hpos Huni Hf Hscan Hadm)
+    destruct (rev_complete_arrival d s p acc egr st dep0 rides Hwf Hp Htab Hpos Hf Hscan Hadm)
       as (C1 & t & n & C2 & _).
     fold k0 in C2. fold k in C2. destruct Hnone as [H|H]; [contradiction|rewrite H in C2; discriminate].
   - intros t n Hbest. split.
@@ -1606,7 +1603,7 @@ Proof.
         as (ra & rides & arr & _ & _ & _ & S1 & S2 & _ & S3 & S4 & _).
       exists rides, arr. rewrite Ek in S2, S4. repeat split; assumption.
     + intros dep0 rides Hadm.
-      destruct (rev_complete_arrival d s p acc egr st dep0 rides Hwf Hp Htab Hpos Huni Hf Hscan Hadm)
+      destruct (rev_complete_arrival d s p acc egr st dep0 rides Hwf Hp Htab Hpos Hf Hscan Hadm)
         as (_ & t1 & n1 & C2 & C3).
       fold k0 in C2. fold k in C2. rewrite Hbest in C2. inversion C2; subst. exact C3.
 Qed.
@@ -1615,7 +1612,7 @@ Qed.
    departure, not before the requested time, among the journeys on trips the forward scan boarded *)
 Theorem rev_departure_optimal d s p acc egr fs best n0 st t n :
   wf_data_b d = true -> wf_params_b p = true -> wf_tables_b d p acc egr = true ->
-  pos_hops_b d = true -> uniform_wait_b d = true -> q_fwd p = true -> q_maxfw p <= 0 ->
+  pos_hops_b d = true -> q_fwd p = true -> q_maxfw p <= 0 ->
   let k0 := mk_calc d p (conn_set d s) acc egr true true in
   fwd_scan d p k0 false = Ok fs -> best_egress p k0 fs = Some (best, n0) ->
   let k := with_rev k0 best (k_dep k0)
@@ -1628,7 +1625,7 @@ Theorem rev_departure_optimal d s p acc egr fs best n0 st t n :
      (forall b e, In (b, e) rides -> o_usable (f_ov fs (c_trip b)) = true) ->
      q_time p <= dep0 -> best - dep0 <= q_maxtt p -> dep0 <= t).
 Proof.
-  intros Hwf Hp Htab Hpos Huni Hf Hfw k0 Hfscan Hbeste k Hscan Hbest.
+  intros Hwf Hp Htab Hpos Hf Hfw k0 Hfscan Hbeste k Hscan Hbest.
   pose proof (calc_single_rev_pre_departure d s p acc egr fs best Htab Hf Hfscan) as Hpre.
   cbv zeta in Hpre. fold k0 in Hpre. fold k in Hpre.
   assert (Ek : k_dep k = q_time p) by (unfold k, k0, with_rev, mk_calc; cbn [k_dep]; rewrite Hf; reflexivity).
@@ -1641,7 +1638,7 @@ Proof.
     destruct (reaches_first_dep _ _ _ _ _ _ _ _ Hreach) as (b & e & rest & Er & Hb).
     assert (Hdp : dep0 <= departure_of p ra0 rides0) by (subst rides0; cbn [departure_of]; lia).
     destruct (rev_complete_departure d s p acc egr fs best n0 st ra0 re0 rides0 (dep0 + fp_time ra0) m t'
-                Hwf Hp Htab Hpos Huni Hf Hfw Hfscan Hbeste Hscan Hra Hre Hreach Hm ltac:(lia) Hus ltac:(lia) ltac:(lia))
+                Hwf Hp Htab Hpos Hf Hfw Hfscan Hbeste Hscan Hra Hre Hreach Hm ltac:(lia) Hus ltac:(lia) ltac:(lia))
       as (_ & t1 & n1 & C2 & C3).
     fold k0 in C2. fold k in C2. rewrite Hbest in C2. inversion C2; subst. lia.
 Qed.
@@ -1692,19 +1689,21 @@ Proof.
 Qed.
 
 (* ---------------------------------------------------------------------------------------------- *)
-(* 14. the hypothesis uniform_wait_b is needed for the single-route scan (PROVING.md rule 6)
+(* 14. regression: mixed minimum waiting times and the access-based break
 
-   The access-based break compares arrival times with  r_tent - k_maxAcc, where r_tent is the BOARDING time of
-   the first boarding found at an access stop; the departure that boarding stands for is r_tent - minimum
-   waiting - access walk.  When connections carry different minimum waiting times (a line of the
-   "transferable" mode gives its connections 0 s, the others the request's value) a later-departing journey on
-   a 0 s connection lies below the cut and is never scanned.
+   The access-based break compares arrival times with  r_tent - k_maxAcc.  r_tent used to be the BOARDING time
+   of the first boarding found at an access stop, while the departure that boarding stands for is
+   boarding time - its minimum waiting - access walk: with connections of different minimum waiting times (a
+   line of the "transferable" mode gives its connections 0 s, the others the request's value) a later-departing
+   journey on a 0 s connection lay below the cut and was never scanned (answer 820 below, and
+   NO_ROUTING_FOUND in the departure direction).  r_tent is now the READY time (boarding - minimum waiting),
+   and rev_complete needs no uniformity of the minimum waiting times.
 
    Stops 1, 2 (both at the origin, 0 s walk), 3 (destination, 0 s walk); arrival by 3000, minimum waiting 180 s.
      trip 1 (ordinary line)      : 1 -> 3, dep 1000, arr 2000   => departure 1000 - 180 = 820
      trip 2 (transferable line)  : 2 -> 3, dep  900, arr  950   => departure  900 -   0 = 900
-   Trip 1 is scanned first (later arrival) and arms the break with r_tent = 1000; trip 2 arrives at
-   950 < 1000 - 0, the scan stops, and calculateSingle answers 820 although leaving at 900 is admissible. *)
+   Trip 1 is scanned first (later arrival) and arms the break with r_tent = 1000 - 180 = 820; trip 2 arrives at
+   950 >= 820 - 0, is scanned, and calculateSingle answers 900. *)
 
 Definition mw_data : data :=
   {| d_nodes := [1; 2; 3]%nat;
@@ -1724,11 +1723,11 @@ Definition mw_egr : list fprow := [row 3 0 0].
 Definition mw_c2 : conn := {| c_trip := 2; c_seq := 1; c_from := 2; c_to := 3; c_dep := 900; c_arr := 950;
                               c_cb := true; c_cu := true; c_minw := 0 |}.
 
-Example tent_break_needs_uniform_wait :
+Example tent_break_mixed_wait_regression :
   wf_data_b mw_data = true /\ wf_params_b mw_params = true /\ wf_tables_b mw_data mw_params mw_acc mw_egr = true /\
   pos_hops_b mw_data = true /\ uniform_wait_b mw_data = false /\
   match calc_single mw_data (conn_set mw_data scen_all) mw_params mw_acc mw_egr true with
-  | Ok (r, _) => rt_dep r = 820
+  | Ok (r, _) => rt_dep r = 900
   | _ => False
   end /\
   admissible_rev mw_data scen_all mw_params mw_acc mw_egr 900 [(mw_c2, mw_c2)].
@@ -1756,8 +1755,9 @@ Qed.
    labels to the list built by rev_allnodes_loop (C09_decl), and, for C05, showing that every journey arriving
    by the forward optimum rides trips the forward scan marked usable (the `o_usable (f_ov fs _)` premise of
    rev_complete_departure / rev_departure_optimal).
-   Remarks: (1) uniform_wait_b is used only for the access-based break: the accessibility theorems do not
-   need it, and tent_break_needs_uniform_wait shows the single-route answer is not optimal without it.
+   Remarks: (1) uniform_wait_b is used nowhere: with r_tent the ready time of the boarding that arms the
+   access-based break, whatever the break cuts arrives before the departure that boarding stands for
+   (tent_break_mixed_wait_regression is the former counterexample).
    (2) the first-waiting cap is off for every arrival query (k_dep = -1), so q_maxfw p <= 0 is needed only for
    the departure instance.  (3) the exit-replacement rule only changes WHICH alighting is recorded, never whether
    one is: completeness of r_taur / r_acc does not depend on it (ov1_is_some). *)
